@@ -117,6 +117,11 @@ def handle (prop : String) (line : String) : String :=
       | "termx" => opTerm args res
       | "termt" => opTerm args res
       | "termp" => opTerm args res
+      | "termpc" =>
+        -- one rendering block cut out of the output of a child whose other threads also print
+        (match res with
+         | "trap" :: m => { spec := some ("print-under-concurrent-output:" ++ "-".intercalate m), model := some "trap" }
+         | _ => opTerm args res)
       | "svg" => opSvg prop args res
       | "svgt" => opSvg prop args res
       | "wasm" => opWasm args res
